@@ -9,7 +9,7 @@ HERE = os.path.dirname(os.path.abspath(__file__))
 sys.path.insert(0, HERE)
 
 
-def verify_with_rewrite(key, old, new, repo=os.environ.get('VERIF_REPO', '/repo'), timeout_ms=10000, count=1):
+def verify_with_rewrite(key, old, new, repo=os.environ.get('VERIF_REPO', '/repo'), timeout_ms=10000, count=1, stop_at_first=False):
     from pyvc import runner
     from pyvc.verify import verify_function
     rel = key.split(':')[0]
@@ -22,7 +22,7 @@ def verify_with_rewrite(key, old, new, repo=os.environ.get('VERIF_REPO', '/repo'
             return dict(error=f'rewrite source text not found: {old!r}')
         open(dst, 'w').write(text.replace(old, new, count))
         db = runner.load_db(tmp)
-        r = verify_function(db, key, timeout_ms=timeout_ms)
+        r = verify_function(db, key, timeout_ms=timeout_ms, stop_at_first=stop_at_first)
         failed = [x.name for x in r['results'] if x.status == 'failed']
         unknown = [x.name for x in r['results'] if x.status == 'unknown']
         return dict(error=r['error'], failed=failed, unknown=unknown)
